@@ -83,6 +83,6 @@ int read_wdc(const char *filename, Memory *memory)
     fclose(in);
   }
 
-  return memory->low_address;
+  return 0;
 }
 
